@@ -797,6 +797,15 @@ class Builder:
             if type(n.op) not in ops:
                 src.fail(n, 'operator outside the subset')
             return f'({ops[type(n.op)]} {a[0]} {b[0]})', 'Z'
+        if isinstance(n, ast.BoolOp):
+            parts = [self.gexpr(v, env) for v in n.values]
+            if any(ty != 'bool' for _, ty in parts):
+                src.fail(n, 'non-boolean operand of and/or')
+            op = 'andb' if isinstance(n.op, ast.And) else 'orb'
+            t = parts[-1][0]
+            for p, _ in reversed(parts[:-1]):
+                t = f'({op} {p} {t})'
+            return t, 'bool'
         if isinstance(n, ast.UnaryOp) and isinstance(n.op, ast.USub):
             a = self.gexpr(n.operand, env)
             if a[1] != 'Z':
@@ -1323,6 +1332,25 @@ def translate(ctx):
     idx_expr, ity = cs.gexpr(calls[0].args[2], {})
     if ity != 'Z':
         csrc.fail(pa, 'index expression is not an integer')
+    # which IKE_SA handles an ACQUIRE: the table lookup of process_acquire
+    look = [n for n in ast.walk(pa) if isinstance(n, ast.Call) and (pyast.dotted_name(n.func) or '').startswith('self._get_ike_sa_by')]
+    if len(look) != 1 or ast.unparse(look[0]) != 'self._get_ike_sa_by_addrs(my_addr, peer_addr)':
+        csrc.fail(pa, 'process_acquire no longer looks the IKE_SA up with self._get_ike_sa_by_addrs(my_addr, peer_addr)')
+    gfn = csrc.func('IkeSaController._get_ike_sa_by_addrs')
+    gbody = [st for st in gfn.body if not (isinstance(st, ast.Expr) and isinstance(st.value, ast.Constant))]
+    if [a.arg for a in gfn.args.args] != ['self', 'my_addr', 'peer_addr'] or len(gbody) != 1 \
+            or not isinstance(gbody[0], ast.Return) or not isinstance(gbody[0].value, ast.Call) \
+            or pyast.dotted_name(gbody[0].value.func) != 'next' or len(gbody[0].value.args) != 1 \
+            or not isinstance(gbody[0].value.args[0], ast.GeneratorExp):
+        csrc.fail(gfn, '_get_ike_sa_by_addrs is no longer `return next(x for x in self.ike_sas if ...)`')
+    gexp = gbody[0].value.args[0]
+    if ast.unparse(gexp.elt) != 'x' or len(gexp.generators) != 1 or ast.unparse(gexp.generators[0].target) != 'x' \
+            or ast.unparse(gexp.generators[0].iter) != 'self.ike_sas' or len(gexp.generators[0].ifs) != 1:
+        csrc.fail(gfn, '_get_ike_sa_by_addrs generator changed shape')
+    cs.atoms = {'x.my_addr == my_addr': ('my_eq', 'bool'), 'x.peer_addr == peer_addr': ('peer_eq', 'bool')}
+    sa_match, smty = cs.gexpr(gexp.generators[0].ifs[0], {})
+    if smty != 'bool':
+        csrc.fail(gfn, 'lookup condition is not boolean')
     ipa = isrc.func('IkeSa.process_acquire')
     lookups = [n for n in ast.walk(ipa) if isinstance(n, ast.Call) and pyast.dotted_name(n.func) == 'next']
     want = 'next((x for x in self.configuration.protect if x.index == index))'
@@ -1362,6 +1390,9 @@ def translate(ctx):
     out.append(f'Definition policy_out_index (index : Z) : Z := {out_idx}.\n')
     out.append('(* IkeSaController.process_acquire: third argument of ike_sa.process_acquire *)')
     out.append(f'Definition acquire_index (index : Z) : Z := {idx_expr}.\n')
+    out.append('(* IkeSaController._get_ike_sa_by_addrs (used by process_acquire): next(x for x in self.ike_sas if <this>);')
+    out.append('   my_eq = (x.my_addr == my_addr), peer_eq = (x.peer_addr == peer_addr) *)')
+    out.append(f'Definition ike_sa_match (my_eq peer_eq : bool) : bool := {sa_match}.\n')
     out.append('(* IkeSa.process_acquire: next(x for x in self.configuration.protect if <this>) *)')
     out.append(f'Definition protect_match (x_index index : Z) : bool := {match_expr}.\n')
     pyast.write_if_changed(gen_path('XfrmBuild.v'), '\n'.join(out) + '\n')
